@@ -316,3 +316,71 @@ func dependsOn(v ssa.Value, target ssa.Value, d int) bool {
 	}
 	return false
 }
+
+// NoSignChange: in the given functions no non-constant integer is converted between a signed and an unsigned type, or
+// to a narrower type: sums of weights / powers / counts keep the type they were declared with. Seed C09-13 accumulated
+// the per-try weight sum of the oracle sampler in int64: a sum >= 2^63 turns negative and loses against every other try.
+func (r *Report) NoSignChange(key string, fnKeys []string, allowed map[string]string) {
+	w := r.W
+	d := "no integer changes signedness or narrows in " + strings.Join(fnKeys, ", ")
+	for _, fk := range fnKeys {
+		fn := w.Fn(fk)
+		k := key + "|" + fk
+		if fn == nil {
+			r.Unres(k, d, "function not found")
+			continue
+		}
+		w.FuncsAnalysed[fn] = true
+		fns := append([]*ssa.Function{fn}, fn.AnonFuncs...)
+		n, bad := 0, ""
+		for _, f := range fns {
+			for _, b := range f.Blocks {
+				for _, in := range b.Instrs {
+					cv, ok := in.(*ssa.Convert)
+					if !ok {
+						continue
+					}
+					if _, isConst := cv.X.(*ssa.Const); isConst {
+						continue
+					}
+					from, ok1 := cv.X.Type().Underlying().(*types.Basic)
+					to, ok2 := cv.Type().Underlying().(*types.Basic)
+					if !ok1 || !ok2 || from.Info()&types.IsInteger == 0 || to.Info()&types.IsInteger == 0 {
+						continue
+					}
+					n++
+					w.SitesExamined++
+					size := func(b *types.Basic) int {
+						switch b.Kind() {
+						case types.Int8, types.Uint8:
+							return 8
+						case types.Int16, types.Uint16:
+							return 16
+						case types.Int32, types.Uint32:
+							return 32
+						}
+						return 64
+					}
+					signChange := (from.Info()&types.IsUnsigned != 0) != (to.Info()&types.IsUnsigned != 0)
+					narrow := size(to) < size(from)
+					if !signChange && !narrow {
+						continue
+					}
+					what := fmt.Sprintf("%s -> %s of %s", from.Name(), to.Name(), clip(Render(cv.X).String(), 80))
+					if why, ok := allowed[fk+"|"+from.Name()+"->"+to.Name()]; ok {
+						_ = why
+						continue
+					}
+					if bad == "" {
+						bad = what + " at " + w.posOr(cv.Pos(), f)
+					}
+				}
+			}
+		}
+		if bad != "" {
+			r.Bad(k, d, w.FnPos(fn), "conversion "+bad)
+		} else {
+			r.OK(k, d, w.FnPos(fn), fmt.Sprintf("%d integer conversions examined", n))
+		}
+	}
+}
